@@ -41,6 +41,8 @@ def gen_sched(rng, k=None, maxops=40):
             g.emit("settle")
             if not held:
                 g.full_poll()
+        elif r < 0.92 and cfg["cache"]:
+            g.emit(f"evict #1 #1 {g.part()} {rng.choice([60, 150, 400, 1200])}")
         elif r < 0.94:
             g.emit(f"flush 0 #1 #1 {g.part()} {rng.choice([0, 1])}")
         elif r < 0.97:
@@ -85,6 +87,8 @@ def gen_stress(rng, k=None):
         g.tick()
         g.emit(f"stress #1 #1 {pid} {np_} {nc} {batches} {maxb} {rng.getrandbits(32)} {1 if bg else 0} {(rnd + 1) * 100000000}")
         g.sent[pid] += np_ * batches * maxb
+        if cfg["cache"] and rng.random() < 0.6:
+            g.emit(f"evict #1 #1 {pid} {rng.choice([150, 400, 1200, 5000])}")
         for _ in range(rng.randint(1, 4)):
             g.poll(pid=pid, auto_ok=not bg)
         if not bg and rng.random() < 0.5:
